@@ -1,4 +1,6 @@
 import DEvo.Ser.Sig
+import DEvo.Ser.FieldAttrs
+import DEvo.Generated.Tables
 
 /-! # C06 — stored project signatures read back exactly as written (attribute values) -/
 
@@ -232,5 +234,65 @@ def QChildrenOK : VL → Bool
   | .cons (.q c n ch) t => QChildrenOK ch && QChildrenOK t
   | .cons _ _ => false
 end
+
+/-! ## the attribute dictionary of a field signature -/
+
+/-- the loader as the current source has it (read by the translator) -/
+def loadCfg : AttrLoadCfg := ⟨DEvo.Generated.attrLoadByPresence⟩
+
+/-- the stored dictionary never uses an alias name as a key (version-2 signatures are written under the
+attribute's own name; `_unique`, `remote_field` are Django attribute names, not signature keys) -/
+def NoAliasKeys {β} (aliases : List (String × String)) (attrs : List (String × β)) : Prop :=
+  ∀ a al, aget aliases a = some al → aget attrs al = none
+
+/-- **every tracked attribute reads back with the value it was stored with — `None`, `False`, `0` and `''`
+included — and nothing else appears**, for every attribute dictionary and every list of tracked names (values are
+arbitrary: `isNull` may be anything).  Holds whenever the loader goes by key presence. -/
+theorem C06_field_attrs_roundtrip {β} (cfg : AttrLoadCfg) (h : cfg.byPresence = true) (isNull : β → Bool)
+    (aliases : List (String × String)) (known : List String) (attrs : List (String × β))
+    (hal : NoAliasKeys aliases attrs) (a : String) :
+    aget (loadAttrs cfg isNull aliases known attrs) a = if a ∈ known then aget attrs a else none := by
+  unfold loadAttrs
+  rw [aget_filterMap_keyed]
+  split
+  · have hb : (aget aliases a).bind (aget attrs) = none := by
+      cases hq : aget aliases a with
+      | none => rfl
+      | some al => simp [hal a al hq]
+    simp only [fetch, hb]
+    cases aget attrs a with
+    | none => rfl
+    | some v => simp [h]
+  · rfl
+
+/-- the current source loads by presence -/
+theorem C06_source_attr_load : DEvo.Generated.attrLoadByPresence = true := by decide
+
+/-- ... so the round trip holds for the current loader -/
+theorem C06_field_attrs_current {β} (isNull : β → Bool) (known : List String) (attrs : List (String × β))
+    (hal : NoAliasKeys DEvo.Generated.attrAliases attrs) (a : String) :
+    aget (loadAttrs loadCfg isNull DEvo.Generated.attrAliases known attrs) a =
+      if a ∈ known then aget attrs a else none :=
+  C06_field_attrs_roundtrip loadCfg C06_source_attr_load isNull _ known attrs hal a
+
+/-- a loader that goes by "value is not None" loses an explicitly stored `None` -/
+theorem C06_cex_none_attr_dropped :
+    aget (loadAttrs ⟨false⟩ (fun (v : Option Nat) => v.isNone) [] ["max_length", "null"]
+        [("max_length", none), ("null", some 1)]) "max_length" = none ∧
+    aget [("max_length", (none : Option Nat)), ("null", some 1)] "max_length" = some none := by decide
+
+/-- non-vacuity of `NoAliasKeys` for an ordinary stored dictionary -/
+example : NoAliasKeys [("unique", "_unique"), ("rel", "remote_field")]
+    [("max_length", (none : Option Nat)), ("unique", some 1)] := by
+  intro a al h
+  have : (a = "unique" ∧ al = "_unique") ∨ (a = "rel" ∧ al = "remote_field") := by
+    simp only [aget, List.find?_cons] at h
+    by_cases h1 : ("unique" == a) = true
+    · simp [h1] at h; exact Or.inl ⟨by simpa using Eq.symm (by simpa using h1), h.symm⟩
+    · simp [h1] at h
+      by_cases h2 : ("rel" == a) = true
+      · simp [h2] at h; exact Or.inr ⟨by simpa using Eq.symm (by simpa using h2), h.symm⟩
+      · simp [h2] at h
+  rcases this with ⟨_, e⟩ | ⟨_, e⟩ <;> subst e <;> decide
 
 end DEvo.Props.C06
